@@ -12,10 +12,16 @@
 (* such an outcome is rejected by trace validation.                        *)
 (* Deviation switch: DebugPrintArgc (the root command prints the number of *)
 (* arguments as the first line of stdout).                                 *)
+(* The LIBRARY stays loaded: the LibFormat calls of one history are calls  *)
+(* into ONE process.  Its answer is a function of the text alone           *)
+(* (LibIsResult holds after every call whatever was asked before).         *)
+(* Deviation switch LibMemo: the exported function remembers its previous  *)
+(* call (text -> what the formatter returned, stored BEFORE the error      *)
+(* check) and answers a repeated text from that memo.                      *)
 (***************************************************************************)
 EXTENDS Integers, Sequences, FiniteSets, TLC, Json
 
-CONSTANTS DebugPrintArgc, MaxCalls
+CONSTANTS DebugPrintArgc, MaxCalls, LibMemo
 Texts == {"valid1", "valid2", "invalid"}
 Valid(t) == t # "invalid"
 Langs == {"lua", "rust", "go", "java", "py", "cpp"}
@@ -23,10 +29,10 @@ Formatted == {"fmt:valid1", "fmt:valid2"}
 Fmt(t) == IF t \in Formatted THEN t ELSE "fmt:" \o t     \* the library result for text t (idempotent)
 FileSet(t, L) == <<"files", t, L>>           \* the generator's file map for target L
 
-VARIABLES file, stdout, exit, ret, tree, alive, calls
-vars == <<file, stdout, exit, ret, tree, alive, calls>>
+VARIABLES file, stdout, exit, ret, tree, alive, calls, memo
+vars == <<file, stdout, exit, ret, tree, alive, calls, memo>>
 
-Init == /\ file \in Texts /\ stdout = <<>> /\ exit = 0 /\ ret = <<>> /\ tree = {} /\ alive = TRUE /\ calls = <<>>
+Init == /\ file \in Texts /\ stdout = <<>> /\ exit = 0 /\ ret = <<>> /\ tree = {} /\ alive = TRUE /\ calls = <<>> /\ memo = <<>>
 
 Prefix == IF DebugPrintArgc THEN << <<"argc">> >> ELSE <<>>
 More == Len(calls) < MaxCalls
@@ -35,21 +41,24 @@ FormatD(t) == /\ More
               /\ IF Valid(t) THEN stdout' = Prefix \o <<Fmt(t), "\n">> /\ exit' = 0
                              ELSE stdout' = Prefix \o <<"Error">> /\ exit' = 1
               /\ calls' = Append(calls, [op |-> "format-d", text |-> t, langs |-> {}])
-              /\ UNCHANGED <<file, ret, tree, alive>>
+              /\ UNCHANGED <<file, ret, tree, alive, memo>>
 FormatF == /\ More
            /\ IF Valid(file) THEN file' = Fmt(file) /\ exit' = 0 /\ stdout' = Prefix
                              ELSE file' = file /\ exit' = 1 /\ stdout' = Prefix \o <<"Error">>
            /\ calls' = Append(calls, [op |-> "format-f", text |-> file, langs |-> {}])
-           /\ UNCHANGED <<ret, tree, alive>>
+           /\ UNCHANGED <<ret, tree, alive, memo>>
 LibFormat(t) == /\ More
-                /\ ret' = IF Valid(t) THEN Fmt(t) ELSE <<"Error:", t>>
+                /\ ret' = IF LibMemo /\ memo # <<>> /\ memo[1] = t THEN memo[2]
+                          ELSE IF Valid(t) THEN Fmt(t) ELSE <<"Error:", t>>
+                \* what the formatter hands back next to its error is the input text
+                /\ memo' = IF LibMemo THEN <<t, IF Valid(t) THEN Fmt(t) ELSE <<"unformatted", t>> >> ELSE memo
                 /\ calls' = Append(calls, [op |-> "lib", text |-> t, langs |-> {}])
                 /\ UNCHANGED <<file, stdout, exit, tree, alive>>
 Compile(S, w) == /\ More
                  /\ IF Valid(file) THEN tree' = tree \cup {FileSet(file, L) : L \in S} /\ exit' = 0
                                    ELSE tree' = tree /\ exit' = 1
                  /\ calls' = Append(calls, [op |-> IF w THEN "compile-word" ELSE "compile-implicit", text |-> file, langs |-> S])
-                 /\ UNCHANGED <<file, stdout, ret, alive>>
+                 /\ UNCHANGED <<file, stdout, ret, alive, memo>>
 
 Next == \/ \E t \in Texts : FormatD(t) \/ LibFormat(t)
         \/ FormatF
@@ -67,5 +76,5 @@ TreeExact == \A f \in tree : f[1] = "files" /\ Valid(f[2])
 \* C11
 Alive == alive
 EmitCalls == calls # <<>> => PrintT(<<"TESTCASE", ToJson([start |-> calls[1].text, calls |-> calls])>>)
-View == <<file, stdout, exit, ret, tree, alive, Len(calls), IF calls = <<>> THEN "" ELSE Last.op>>
+View == <<file, stdout, exit, ret, tree, alive, Len(calls), IF calls = <<>> THEN "" ELSE Last.op, memo>>
 =============================================================================
